@@ -65,12 +65,13 @@ type Ledger struct {
 type renameFrame struct {
 	m    map[string]string
 	only bool
+	keep func(o *Obligation) bool // with only: a further restriction on the obligations taken over
 }
 
 // As runs f with rule names rewritten: a rule owned by one property is a necessary condition of another one too, and
 // is then reported under that property's own rule name.  Calls nest: the innermost rewriting is applied first.
 func (l *Ledger) As(rename map[string]string, f func()) {
-	l.frames = append(l.frames, renameFrame{rename, false})
+	l.frames = append(l.frames, renameFrame{rename, false, nil})
 	defer func() { l.frames = l.frames[:len(l.frames)-1] }()
 	f()
 }
@@ -78,7 +79,15 @@ func (l *Ledger) As(rename map[string]string, f func()) {
 // AsOnly is As restricted to the listed rules: whatever else f reports is dropped (f is another property's whole check,
 // of which only some rules are necessary conditions of this property).
 func (l *Ledger) AsOnly(rename map[string]string, f func()) {
-	l.frames = append(l.frames, renameFrame{rename, true})
+	l.frames = append(l.frames, renameFrame{rename, true, nil})
+	defer func() { l.frames = l.frames[:len(l.frames)-1] }()
+	f()
+}
+
+// AsOnlyWhere is AsOnly further restricted to the obligations keep accepts (the part of a program-wide rule that
+// concerns this property's components).
+func (l *Ledger) AsOnlyWhere(rename map[string]string, keep func(o *Obligation) bool, f func()) {
+	l.frames = append(l.frames, renameFrame{rename, true, keep})
 	defer func() { l.frames = l.frames[:len(l.frames)-1] }()
 	f()
 }
@@ -100,6 +109,9 @@ func (l *Ledger) add(o *Obligation) *Obligation {
 			}
 		}
 		if fr.only && !matched && !strings.HasPrefix(o.Rule, "infrastructure") {
+			return o
+		}
+		if fr.only && matched && fr.keep != nil && !fr.keep(o) {
 			return o
 		}
 	}
